@@ -55,7 +55,20 @@ PLAN6 = {
  'W6G-m1': ('G', ['C10','C07']), 'W6G-m2': ('G', ['C10','C07','C09']),
  'W6H-m1': ('H', ['C20']), 'W6H-m2': ('H', ['C20']),
 }
+PLAN7 = {
+ 'W7A-m1': ('A', ['C05']), 'W7A-m2': ('A', ['C05']),
+ 'W7B-m1': ('B', ['C08']), 'W7B-m2': ('B', ['C08']),
+ 'W7C-m1': ('C', ['C09']), 'W7C-m2': ('C', ['C09']),
+ 'W7D-m1': ('D', ['C12']), 'W7D-m2': ('D', ['C12']),
+ 'W7E-m1': ('E', ['C17']), 'W7E-m2': ('E', ['C17']),
+ 'W7F-m1': ('F', ['C19']), 'W7F-m2': ('F', ['C19']),
+ 'W7G-m1': ('G', ['C20']), 'W7G-m2': ('G', ['C20']),
+ 'W7H-m1': ('H', ['C03']), 'W7H-m2': ('H', ['C03']),
+}
 SRC = {}
+for k, (d, checks) in PLAN7.items():
+    PLAN[k] = checks
+    SRC[k] = f'/tmp/mut7-{d}/out/{k.split("-")[1]}'
 for k, (d, checks) in PLAN6.items():
     PLAN[k] = checks
     SRC[k] = f'/tmp/mut6-{d}/out/{k.split("-")[1]}'
